@@ -422,3 +422,30 @@ def t_r6(p: Project, rep: Report):
         rets = flow.return_nodes()
         ok = bool(guards) and bool(rets) and flow.cfg.must_pass_through([r.id for r in rets], guards)
         rep.check("T-R6", "Decimal.unconvert[decimal.Decimal]:same-quantum", ok, "the writer does not refuse values whose exponent differs from the declared scale" if not ok else "", tloc(p, h.fn))
+
+
+def t_r7(p: Project, rep: Report):
+    rep.rule("T-R7", "the String reader checks the length limit on the DECODED text: the argument of enforce_length derives from the entity decoder's result, and that checked value is what is returned (checking the escaped wire text rejects valid values at the limit that contain & < >)")
+    scal, _ = scalar_types(p)
+    ci = scal["String"]
+    h = D.family(ci, "convert").get("str")
+    if h is None:
+        raise AnalysisError("String str reader not found")
+    flow = Flow(h.fn)
+    from .dataflow import resolve_values
+
+    calls = [(n, c) for n in flow.cfg.nodes for c in n.calls() if self_call_name(c) == "enforce_length"]
+    if not calls:
+        rep.check("T-R7", "String.convert[str]:length-on-decoded-text", False, "the reader never checks the length", tloc(p, h.fn))
+        return
+    for n, c in calls:
+        vals = [text(v) for v in resolve_values(c.args[0], n, flow.reach)] if c.args else []
+        ok = bool(vals) and all(("unescape(" in v) for v in vals)
+        rep.check("T-R7", "String.convert[str]:length-on-decoded-text", ok, f"enforce_length is applied to {vals}: the limit is tested before entities are decoded, so a valid value such as 'AT&T' at the limit ('AT&amp;T' on the wire) is rejected" if not ok else "", tloc(p, c))
+    for rn in flow.return_nodes():
+        v = rn.stmt.value
+        if v is not None and self_call_name(v) == "enforce_required":
+            continue
+        vals = [text(x) for x in resolve_values(v, rn, flow.reach)] if v is not None else []
+        ok = bool(vals) and all("enforce_length(" in x for x in vals)
+        rep.check("T-R7", "String.convert[str]:returns-checked-decoded-text", ok, f"returns {vals}" if not ok else "", tloc(p, rn.stmt))
